@@ -187,8 +187,16 @@ class World:
             warnings.simplefilter("ignore")
             # 1. a drawn member computes to its shadow
             i = step.get("probe", 0) % len(self.pool)
+            # the probe must not leave materialized intermediates behind (they would mask a later mis-wiring by serving
+            # stale but correct data): snapshot the intermediate store and restore it afterwards
+            inner = self.ts._store._store_dict
+            snap = dict(inner)
             try:
-                got = self.pool[i].compute(executor=self.H.make_executor("single-threaded"), optimize_graph=step.get("probe_opt", True))
+                try:
+                    got = self.pool[i].compute(executor=self.H.make_executor("single-threaded"), optimize_graph=step.get("probe_opt", True))
+                finally:
+                    inner.clear()
+                    inner.update(snap)
                 self._compare(i, np.asarray(got), f"after step {idx} ({step['op']})")
                 if self.mutating_steps and self.born[i] < self.mutating_steps[-1]:
                     self.nontrivial = True
